@@ -121,7 +121,7 @@ class Typer(object):
 def _work(args):
     from .. import facts
     F = facts.load()
-    ctx, texts = args
+    ctx, texts, maxlen = args
     T_ = Typer(F)
     out = []
     typed = 0
@@ -139,7 +139,7 @@ def _work(args):
             continue
         typed += 1
         ast = X.parse(text)
-        n_runs, n_sat, n_dis, fails = TS.check(ast, ctx, labels)
+        n_runs, n_sat, n_dis, fails = TS.check(ast, ctx, labels, maxlen)
         runs += n_runs
         if fails:
             out.append((ctx, text, labels, fails))
@@ -172,7 +172,7 @@ def run(chk):
         cs = candidates(ctx, chk.tier)
         k = nproc // 2
         for i in range(k):
-            jobs.append((ctx, cs[i::k]))
+            jobs.append((ctx, cs[i::k], 3 if chk.tier == "quick" else 4))
     with mp.Pool(nproc) as pool:
         results = pool.map(_work, jobs, chunksize=1)
     typed = runs = 0
